@@ -26,6 +26,10 @@ CLAIMED.update({
  "C13": ("E2", "Every multiset of <= 3 (thorough: 4) files over {formatted, unformatted, unparseable, invalid UTF-8, missing path} x layout {explicit arguments in every rotation, `.`, sub-directory} x 4 output formats x --verify x --num-threads {1,4}, in --check mode: tree snapshot (bytes, mtime, inode, mode, listing) unchanged; exit status 2 / 1 / 0 by the rule; the number of files reported as differing equals the number that differ; JSON lines parse.", E2NOTE, E2TECH + "; fault kinds enumerated", "6/C13"),
  "C14": ("E2", "Every ORDERED list of <= 3 (thorough: 4) files over {unformatted, formatted, unparseable, verify-failing, crashing, invalid UTF-8, immutable} (verify-failing and crashing through the cfg-guarded fault injector) x layouts x --verify x --num-threads {1,4} in write mode: healthy files end up as the library output, every failing file keeps its bytes, formatted files keep inode and mtime, nothing is created, exit status 2 iff any failure.", E2NOTE, E2TECH + "; fault enumeration through the injector hook", "6/C14"),
  "C18": ("E2", "Every file of <= 3 lines over a 9-shape line alphabet and <= 4 lines over its first four shapes (thorough: <= 5 lines over 9 shapes), paired with its real formatting, x 4 output formats: the checker's own unified-diff applier (validating hunk headers against bodies) and JSON-mismatch applier must reconstruct the library output; summary lists exactly the differing file; no diff iff already formatted; exit status matches.", E2NOTE, E2TECH + "; own diff appliers as oracle", "6/C18"),
+ "C15": ("E2", "Directory chain above / at / below the working directory with 14 places a configuration can sit (both file names at 4 levels, .editorconfig at and above cwd, 4 XDG/HOME locations): every subset of <= 2 (thorough: 3) places x 13 targets (files at each level in several spellings, `.`, a file above cwd, stdin with and without --stdin-filepath) x --search-parent-directories x --no-editorconfig x a CLI override x --config-path; each place prescribes its own indent width, so the output names the configuration applied; compared with a reference model of the documented search (a set of acceptable answers where the documentation is silent). Plus per-file .editorconfig sections with several files per invocation.", E2NOTE, E2TECH + "; reference model of the documented search", "6/C15"),
+ "C16": ("E2", "Tree with Lua / Luau / text / hidden / nested / ignored-directory files x .styluaignore at {none, cwd, sub-directory} with 5 pattern lists (directory, wildcard, wildcard + negation, anchored path, basename) x every argument list of <= 2 (thorough: 3) over 8 arguments incl. repeats, overlaps and alternative spellings x 3 glob sets x --respect-ignores x --allow-hidden, in write mode (set of changed files) and in --check summary mode (multiset of processed files): equal to the reference model's selection, each file once, everything else byte-identical.", E2NOTE, E2TECH + "; reference model of selection (gitignore semantics for the pattern alphabet only)", "6/C16"),
+ "C17": ("E2", "Inputs {unformatted, formatted, invalid, empty, whitespace-only, CRLF, no final newline, 1 MiB (thorough: 4 and 16 MiB)} x option sets {plain, --verify, format options, range, --check in 4 formats} x --stdin-filepath {none, normal, ignored, ignored + --respect-ignores, normal + --respect-ignores} x with / without stylua.toml: stdout equals the library output under the resolved configuration (input unchanged when skipped, nothing on a parse error with exit 2), --check exit status and unified diff reconstruct, tree snapshot unchanged.", E2NOTE, E2TECH, "6/C17"),
+ "C20": ("E2", "Every option x every documented value x the case variants the flag parser accepts x carrier {stylua.toml, flag, .editorconfig key in lower and upper case}: the file on disk equals the library output for the intended Config (on a probe that reveals every option, at 4 column widths, `max_line_length = off`); ~140 malformed stylua.toml files (every key with a character dropped / replaced / upper-cased, values of another type, unknown value / key / table, duplicate key, broken syntax) x 3 targets: exit status 2 and no file modified.", E2NOTE, E2TECH, "6/C20"),
 })
 NOT_YET = "check under construction in this session (engine designed in DESIGN.md, not yet registered)"
 def main():
